@@ -43,8 +43,8 @@ func init() {
 		Prop: "C14", Name: "chain-seams", World: "CHAIN", Level: "exploration",
 		Rule: "one run = a seeded history of 20-40 blocks (thorough 30-65) of the staking-chain simulation (generator of C06/C07: transfers, contract creations/calls, every staking action valid and invalid, delegations, double-sign evidences, penalties, withdraw queue, scaled staking periods), then: " +
 			"O1 EMIT SIDE, fault-free: every typed record on the builder's simulated disk (header, body, receipts in storage form, tx lookup entries) and every object of the chain (block/header/transaction wire form, receipts in consensus form, every staking message and its typed payload per action, slash data and every evidence in it, header consensus data and vote/certificate containers, slash log data) and every leaf of the account, validator and staking tries of EVERY block's post-state (accounts, validator records, statistics, validator index, withdraw queue, staking records, pending relationships), storage slots and delegation blobs is decoded with the node's own typed decoder (called like the cited production caller) and re-encoded with the node's encoder: bytes identical, decode(encode(v)) renders identically through JSON/Dump, stored block/receipts equal the in-memory block and the receipts of a re-execution on the stored fields, one hash per object; " +
-			"O2 ACCEPT SIDE, the fault: real encodings corrupted by networld.Mutate (bit flips, truncation, extension, size-field attacks up to 2^63, non-canonical encodings, canonical encodings of the wrong shape) go to the real typed decoder of their record type: no panic, no allocation above 64 MiB for inputs below 1 MiB, and whatever is accepted re-encodes to exactly the corrupted bytes (nested typed payloads of accepted containers are followed); " +
-			"O3 handlers: corrupted staking messages signed by the real sender through StateProcessor.ApplyTransaction on a scratch state, corrupted messages whose payload still decodes submitted to the real pool and built into blocks until the staking period has ended (take-effect path), blocks with corrupted slash data / evidence blobs through Processor.Process + ValidateState, and restarts of a verifying node (chainkit.NewImporter) on the disk image of the last block but one with ONE corrupted record (chain record or trie leaf value inside a well-formed node or delegation blob) followed by the read accessors and the import of the last block: refusals (error, nil, logging.Crit) are fine, a panic is a violation. " +
+			"O2 ACCEPT SIDE, the fault: real encodings corrupted by networld.Mutate (bit flips, truncation, extension, size-field attacks up to 2^63, non-canonical encodings, canonical encodings of the wrong shape) or, one time in six, by a value shift of a small-integer field (flag/status/role/action: the canonical encoding of a slightly different value) go to the real typed decoder of their record type: no panic (decoder-panic:<type>), no allocation above 64 MiB for inputs below 1 MiB (decoder-allocation:<type>), and whatever is accepted re-encodes to exactly the corrupted bytes (accepted-noncanonical:<type>:<how the re-encoding differs: trailing-bytes|encoding|arity|content|malformed>; nested typed payloads of accepted containers are followed); " +
+			"O3 handlers: corrupted staking messages signed by the real sender through StateProcessor.ApplyTransaction on a scratch state, corrupted messages whose payload still decodes submitted to the real pool and built into blocks until the staking period has ended (take-effect path), blocks with corrupted slash data / evidence blobs through Processor.Process + ValidateState, and restarts of a verifying node (chainkit.NewImporter) on the disk image of the last block but one with ONE corrupted record (chain record or trie leaf value inside a well-formed node or delegation blob) followed by the read accessors and the import of the last block: refusals (error, nil, logging.Crit) are fine, a panic is a violation (handler-panic:*, restart-panic:<type>, rejected-record-panic:<type> when the record's own decoder refuses the corrupted bytes, accepted-record-panic:<type> when it accepts them and the node computes on a well-formed record of a different value; a panic on the worker's goroutine is kit's process-crash:<function>). " +
 			"Non-trivial = at least one corrupted record reached a decoder.",
 		Real: []string{"rlp", "core/types codecs (Header, Block, Transaction, Receipt, ReceiptForStorage, Log)", "core/rawdb accessors and record layout", "core/state codecs (Account, Validator, ValidatorsStat, ValidatorIndex, WithdrawQueue, Record, pending relationships, delegation lists)",
 			"staking.Message and the typed Tx* payloads, staking.Evidence/EvidenceDoubleSignV5/SlashDataV5", "staking.TxConverter and handlers behind core.StateProcessor.ApplyTransaction, take-effect at the period end", "staking.replaySlashing behind Processor.Process, BlockValidator.ValidateState",
@@ -68,7 +68,4 @@ func runChainSeams(r *kit.Run) {
 	w := newWorld(r)
 	bias := r.C.Intn("generator-bias", 2)
 	stakechainworld.RunHistory(r, bias, 20, 40, w.onBuilt, w.atEnd)
-	if len(r.Stats) > 0 {
-		r.Nontrivial()
-	}
 }
